@@ -7,12 +7,27 @@ phase `route` (hooked: `detect` + `ProtocolDetectConn.Read` driven directly)
                e = `D<hex>` (one transport chunk) | `T` (one read that times out); end = EOF
   observed : `att=<r>,<r>,..|- ver=<major minor hex> reads=<hex>/<ok|eof|timeout>,..|-`
                r = tlcp | tls | unsupported | config | eof | unexpected_eof | timeout | panic
+phase `pub` (no hooks: `Read` / `Write` of the PUBLIC object `Accept` returned, scripted transport)
+  case     : `ph=pub cfg=.. ev=.. ops=<R|W>,<R|W>,..|-`
+  observed : `att=<r>,<r>,..|-`   r as above | hang; a call made once a stack is installed
+               answers that stack's name (whatever the stack then does with the scripted bytes)
 phase `e2e` (no hooks: real client, real handshake and echo through `pa.NewListener`)
   case     : `ph=e2e client=tlcp|tls cfg=dual|tlcp|tls seg=<n> rb=<n> msg=<hex>`
-  observed : `served=tlcp|tls|none hs=ok|fail echo=<hex>`
+             optional `slow=<k> first=R|W pre=<hex>`: the client's first record is delivered in
+             two pieces, k = 0..4 bytes first; the server's first call (Read, or Write of `pre`)
+             runs under an expired read deadline with only those k bytes there, the deadline is
+             then cleared, the rest arrives, and the server goes on (Write of `pre` again, echo)
+  observed : `[poll=<r>] served=tlcp|tls|none hs=ok|fail echo=<hex>`
+phase `close` (no hooks: a second goroutine while the first call on the public object is parked)
+  case     : `ph=close cfg=.. major=<n> k=<0..7> first=R|W act=close|rdl|dl|wdl+close`
+               k bytes of the client's first record have arrived, the client is silent;
+               act: Close / SetReadDeadline(past) / SetDeadline(past) / SetWriteDeadline(past) then Close
+  observed : `act=ok|hang call=err|timeout|ok|hang|panic`  (`early=<r>`: the first call returned
+               before the second goroutine acted; `parked=no`: it never reached the transport)
 -/
 import Gotlcp.Oracle.Common
 import Gotlcp.Model.PAFacts
+import Gotlcp.Model.PALock
 import Gotlcp.Spec.PASpec
 
 namespace Gotlcp.Oracle.C20
@@ -66,6 +81,9 @@ def sentOf : List Ev → Bytes
 
 def hasTimeout (evs : List Ev) : Bool := evs.any (fun e => e == .timeout)
 
+/-- spec-side reading of the transport script: how many reads of the transport timed out -/
+def timeoutsOf (evs : List Ev) : Nat := (evs.filter (fun e => e == .timeout)).length
+
 def isRouting (r : String) : Bool := r == "tlcp" || r == "tls" || r == "unsupported" || r == "config"
 
 /-- the property on one observed `route` case -/
@@ -76,16 +94,23 @@ def specRoute (cfg : Cfg) (evs : List Ev) (att : List String) (reads : List (Byt
   let wantS := match want with
     | some v => showVerdict v
     | none => "an error (fewer than 5 bytes sent)"
-  let rec go (i : Nat) : List String → Option (String × String)
+  -- `failed` = calls so far that ended in an I/O error.  A client that sent a full header is to
+  -- be routed however the transport delivered it: a call may fail only because a read of the
+  -- transport timed out, and every timed-out read fails at most one call.
+  let rec go (i failed : Nat) : List String → Option (String × String)
     | [] => none
     | r :: rs =>
       if r == "panic" then some ("panic", s!"call {i} panicked")
+      else if r == "hang" then some ("hang", s!"call {i} did not return")
       else if isRouting r then
-        if some r == want.map showVerdict then go (i + 1) rs
+        if some r == want.map showVerdict then go (i + 1) failed rs
         else some ("misroute", s!"call {i} answered {r} but the first record (major version {Hex.encode (sent.drop 1 |>.take 1)}) calls for {wantS}")
-      else if sent.length < 5 || hasTimeout evs then go (i + 1) rs
-      else some ("spurious-error", s!"call {i} failed with {r} although the client sent a full header and nothing timed out")
-  match go 0 att with
+      else if sent.length < 5 then go (i + 1) (failed + 1) rs
+      else if !hasTimeout evs then
+        some ("spurious-error", s!"call {i} failed with {r} although the client sent a full header and nothing timed out")
+      else if r == "timeout" && failed < timeoutsOf evs then go (i + 1) (failed + 1) rs
+      else some ("stale-error", s!"call {i} failed with {r}: the client sent a full header (first record calls for {wantS}), {timeoutsOf evs} read(s) of the transport timed out and {failed} call(s) had failed already")
+  match go 0 0 att with
   | some f => some f
   | none =>
     let got := (reads.map (·.1)).flatten
@@ -123,6 +148,59 @@ def judgeRoute (ct : List String) (o : String) : Option Verdict := do
     | _, _ => some ("shape", "missing att/reads")
   pure { model := model, spec := spec, trivial := k == 0 || evs.isEmpty }
 
+/-- phase `pub`: the same scripts through `Read` / `Write` of the public object -/
+def judgePub (ct : List String) (o : String) : Option Verdict := do
+  let cfg ← (kv ct "cfg").bind parseCfg
+  let evs ← (kv ct "ev").bind parseEvs
+  let ops ← kv ct "ops"
+  let k := if ops == "-" then 0 else (ops.splitOn ",").length
+  let r := calls factsP cfg k { c := { p := { evs := evs } } }
+  let model := s!"att={joinOr (r.1.map showRoute)}"
+  let ot := tokens o
+  let spec : Option (String × String) :=
+    match kv ot "att" with
+    | some a => specRoute cfg evs (if a == "-" then [] else a.splitOn ",") []
+    | none => some ("shape", "missing att")
+  pure { model := model, spec := spec, trivial := k == 0 || evs.isEmpty }
+
+/-- phase `close` -/
+def judgeClose (ct : List String) (o : String) : Option Verdict := do
+  let k ← kvNat ct "k"
+  let first ← kv ct "first"
+  let act ← kv ct "act"
+  let parked := if first == "W" then "Write" else "Read"
+  let kind := if k < Spec.PA.recordHeaderLen then evTransportRead else evIntoStack
+  let name := if act == "close" then "Close" else if act == "rdl" then "SetReadDeadline"
+    else if act == "dl" then "SetDeadline" else "SetWriteDeadline"
+  let ret := unblockerReturns Facts.pa.swProgs Facts.pa.swUnblockers parked kind name &&
+    (act != "wdl+close" || unblockerReturns Facts.pa.swProgs Facts.pa.swUnblockers parked kind "Close")
+  let model := if ret then (if act == "rdl" || act == "dl" then "act=ok call=timeout" else "act=ok call=err")
+    else "act=hang call=hang"
+  let ot := tokens o
+  let what := if act == "close" then "Close()" else if act == "rdl" then "SetReadDeadline()"
+    else if act == "dl" then "SetDeadline()" else "SetWriteDeadline() + Close()"
+  let spec : Option (String × String) :=
+    match kv ot "act", kv ot "call" with
+    | some a, some c =>
+      if a == "hang" then
+        some ("hang", s!"{what} from another goroutine did not return while the first {parked} was waiting with {k} byte(s) of the client's first record delivered")
+      else if c == "hang" then
+        some ("hang", s!"the first {parked} (client silent after {k} byte(s)) did not return after {what}")
+      else if c == "panic" then some ("panic", s!"the first {parked} panicked")
+      else if c == "ok" then
+        some ("no-error", s!"the first {parked} returned without an error after {what} although the client never completed its first record ({k} byte(s))")
+      else none
+    | _, _ =>
+      -- the first call came back before the second goroutine did anything: the model's
+      -- prediction (parked) disagrees; the property itself only objects to a panic or to a
+      -- call that reports success although the client never completed its first record
+      match kv ot "early" with
+      | some "panic" => some ("panic", s!"the first {parked} panicked")
+      | some "ok" => some ("no-error", s!"the first {parked} returned without an error although the client never completed its first record ({k} byte(s))")
+      | some _ => none
+      | none => some ("shape", "missing act/call")
+  pure { model := model, spec := spec }
+
 def clientMajor (s : String) : Option UInt8 :=
   if s == "tlcp" then some 0x01 else if s == "tls" then some 0x03 else none
 
@@ -130,9 +208,29 @@ def judgeE2E (ct : List String) (o : String) : Option Verdict := do
   let cfg ← (kv ct "cfg").bind parseCfg
   let cl ← kv ct "client"
   let mj ← clientMajor cl
-  let msg ← kv ct "msg"
-  let r := route factsP cfg mj
-  let model := if r.served then s!"served={showRoute r} hs=ok echo={msg}" else "served=none hs=fail echo=-"
+  let msg0 ← kv ct "msg"
+  -- slow first record: the first call sees k < 5 bytes and an expired deadline; a first Write's
+  -- greeting reaches the client ahead of the echo
+  let slow := (kv ct "slow").isSome
+  let slowK := (kvNat ct "slow").getD 0
+  let pre := match kv ct "first", kv ct "pre" with
+    | some "W", some p => if p == "-" then "" else p
+    | _, _ => ""
+  let msg := pre ++ msg0
+  let poll := if slow then
+      match (calls factsP cfg 1 { c := { p := { evs := [.data (List.replicate slowK 0x16), .timeout] } } }).1 with
+      | [x] => s!"poll={showRoute x} "
+      | _ => "poll=? "
+    else ""
+  -- the stack serving the client: the dispatch on its version byte; with a slow first record, the
+  -- answer of the SECOND call on the public object (k header bytes, an expired deadline, the rest)
+  let hdr : Bytes := [0x16, mj, 0x01, 0x00, 0x06]
+  let r := if slow then
+      match (calls factsP cfg 2 { c := { p := { evs := [.data (hdr.take slowK), .timeout, .data (hdr.drop slowK)] } } }).1 with
+      | [_, x] => x
+      | _ => .panic
+    else route factsP cfg mj
+  let model := poll ++ (if r.served then s!"served={showRoute r} hs=ok echo={msg}" else "served=none hs=fail echo=-")
   -- spec: a TLCP (TLS) client is served by the TLCP (TLS) stack iff it is configured, and then
   -- handshake and echo behave as against the stack directly
   let want := Spec.PA.route cfg.tlcp cfg.tls mj
@@ -140,8 +238,13 @@ def judgeE2E (ct : List String) (o : String) : Option Verdict := do
     | .tlcp => s!"served=tlcp hs=ok echo={msg}"
     | .tls => s!"served=tls hs=ok echo={msg}"
     | _ => "served=none hs=fail echo=-"
-  let spec := if normalise o == wantLine then none
-    else some ("e2e", s!"a {cl} client through the adapter: expected {wantLine}")
+  let ot := tokens o
+  let obs := " ".intercalate (ot.filter (fun t => !t.startsWith "poll="))
+  let spec := if kv ot "poll" == some "hang" then
+      some ("hang", s!"the first call of the server (expired read deadline, fewer than five bytes of the client's first record there) did not return")
+    else if kv ot "poll" == some "panic" then some ("panic", "the first call of the server panicked")
+    else if obs == wantLine then none
+    else some ("e2e", s!"a {cl} client through the adapter{if slow then " (first record delivered in two pieces around an expired read deadline)" else ""}: expected {wantLine}")
   pure { model := model, spec := spec }
 
 def judge (c o : String) : Option Verdict := do
@@ -149,6 +252,8 @@ def judge (c o : String) : Option Verdict := do
   let ph ← kv ct "ph"
   if ph == "route" then judgeRoute ct o
   else if ph == "e2e" then judgeE2E ct o
+  else if ph == "pub" then judgePub ct o
+  else if ph == "close" then judgeClose ct o
   else none
 
 end Gotlcp.Oracle.C20
